@@ -17,7 +17,7 @@ ASSUMPTIONS = ["optimality is judged only for complete tables whose possible tot
                "(sum of the min(n,m) largest |w| <= 2**53): the routine documents native-type arithmetic",
                "for sparse tables only validity (one-to-one, existing pairs, true weights) is judged, as the property states",
                "bool tables with missing pairs may raise the documented ValueError"]
-MINIMUMS = {"quick": {"tables_judged": 20000, "optimality_judged": 15000, "engine_tables": 50},
+MINIMUMS = {"quick": {"same_sequence_object_on_both_sides": 3000, "tables_judged": 20000, "optimality_judged": 15000, "engine_tables": 50},
             "thorough": {"tables_judged": 400000, "optimality_judged": 300000, "engine_tables": 1000}}
 
 BOUNDARY = [0, 1, 2, 3, 254, 255, 256, 65534, 65535, 65536, 2**31 - 1, 2**31, 2**32 - 1, 2**32, 2**53 - 1, 2**53]
@@ -176,7 +176,19 @@ def check(case, ctx):
     has_none = any(w is None for w in flat)
     is_bool = any(isinstance(w, bool) for w in flat)
     try:
-        res = matching.min_weight_bipartite_matching(list(range(n)), list(range(m)), lambda i, j: table[i][j])
+        # the two node sequences as callers pass them: two lists, a list and a tuple, a range, and -- for square tables -- the very
+        # same sequence object on both sides (a set of nodes matched against itself; the table need not be symmetric)
+        h = (n * 31 + m * 17 + len(repr(table))) % 5
+        rows, cols = list(range(n)), list(range(m))
+        if h == 1:
+            rows, cols = tuple(rows), cols
+        elif h == 2:
+            rows, cols = range(n), range(m)
+        elif h == 3 and n == m:
+            cols = rows
+            if ctx is not None:
+                ctx.count("same_sequence_object_on_both_sides")
+        res = matching.min_weight_bipartite_matching(rows, cols, lambda i, j: table[i][j])
     except ValueError as ex:
         if is_bool and has_none:   # documented: bool tables must be complete
             if ctx is not None:
